@@ -118,3 +118,14 @@ Theorem C10_network_entry_points_are_the_sources : forall from m s,
   snd (Node.run (GenHandlers.gen_ReceiveRestartExistingChannelRequest (Node.n_self (Node.s_node s)) from m) s) = snd (Node.run (Node.recv_restart_existing from m) s).
 Proof. exact HandlerEq.receiver_handlers_are_source. Qed.
 Print Assumptions C10_network_entry_points_are_the_sources.
+
+(* opening a channel as written in Node.v (a fresh id from the counter, the request built from the caller's
+   voucher, base CID and selector, the record created and opened before anything leaves the node, the peer
+   protected, the request sent over the network for a push and handed to the transport for a pull, a failed send
+   failing the channel) runs, for every interpreter state, like the programs regenerated from impl/impl.go
+   OpenPushDataChannel / OpenPullDataChannel: same error class, same state and outputs, same channel id *)
+Theorem C10_opening_calls_are_the_sources : forall to v b sel s,
+  HandlerEq.same_open (Node.run (Node.bind (Node.exec Node.ISelf) (fun self => GenHandlers.gen_OpenPushDataChannel self to v b sel)) s) (Node.run (Node.open_channel Node.DPush to v b sel) s) /\
+  HandlerEq.same_open (Node.run (Node.bind (Node.exec Node.ISelf) (fun self => GenHandlers.gen_OpenPullDataChannel self to v b sel)) s) (Node.run (Node.open_channel Node.DPull to v b sel) s).
+Proof. exact HandlerEq.opening_calls_are_source. Qed.
+Print Assumptions C10_opening_calls_are_the_sources.
